@@ -237,7 +237,7 @@ def random_script(rng, depth_max=3, big=False):
         h = g.handler(nm, body)
         handlers.append(limit_features(h, rng, g))
     tree = g.script(handlers)
-    return dict(tree=tree, pre=L.name_table(rng), scr_num=rng.choice([0, 0, 1, 7, 300]), kind="random-" + kind)
+    return dict(tree=tree, pre=L.name_table(rng), scr_num=rng.choice([0, 0, 1, 7, 300, 32000, 32767]), kind="random-" + kind)
 
 
 EXCEPTION_FEATURES = ()     # the decompiler raises: these get a script of their own (finding_scripts / exception_scripts)
@@ -290,6 +290,7 @@ PROBES = {
     "f20_set_index_call": _probe([["set", ["the", "sprite", 14, ["c", "random", ["i", 3]]], ["i", 10]]]),
     "f20_index_quote_constant": _probe([["call", "put", ["the", "cast", 11, ["s", S("\"")]]]]),
     "f21_double_minus": _probe([["set", ["l", "x"], ["u", "neg", ["u", "neg", ["l", "y"]]]]]),
+    "f140_symbol_first_arg_of_list_function": _probe([["set", ["l", "x"], ["c", "getOne", ["y", "foo"], ["i", 3]]]]),
     "f22_nested_tell": _probe([["tell", ["c", "window", ["s", S("a")]], ["tell", ["c", "window", ["s", S("b")]], ["call", "updateStage"]], ["call", "beep"]]]),
     "f38_set_field_property": _probe([["set", ["the", "field", 6, ["i", 1]], ["s", S("right")]]]),
     "f39_chunk_put_second_local": _probe([["set", ["l", "x"], ["i", 1]], ["set", ["l", "y"], ["s", S("a,b")]],
@@ -335,6 +336,7 @@ def cases(rng, tier):
         fs = family_scripts(rng)
         scripts += fs[::4]
     scripts += wide_scripts(rng)
+    scripts += L.border_scripts(rng, tier)
     for i in range(n_random):
         scripts.append(random_script(rng, depth_max=3 if tier == "quick" else rng.choice([3, 4, 6]), big=(i % 50 == 0)))
     cs, rejected = build_cases(scripts)
